@@ -2,6 +2,8 @@ package lens
 
 import (
 	"bytes"
+	"sort"
+	"strings"
 	"context"
 	"encoding/json"
 	"fmt"
@@ -37,7 +39,7 @@ func (c18) Components() map[string]string {
 }
 
 var c18EnvFaults = []string{"none", "diff-digest", "diff-size", "diff-mediatype", "drop-annotation", "alter-annotation", "add-annotation", "extra-payload-member", "extra-descriptor-member",
-	"spelling-TargetArtifact", "dup-good-then-bad", "dup-bad-then-good", "null-then-capital", "null-target", "other-format", "type-string-mismatch", "corrupt", "wrong-payload-type", "replay", "garbage", "empty", "corrupt-mid", "corrupt-payload"}
+	"spelling-TargetArtifact", "dup-good-then-bad", "dup-bad-then-good", "null-then-capital", "null-target", "other-format", "type-string-mismatch", "corrupt", "wrong-payload-type", "replay", "garbage", "empty", "corrupt-mid", "corrupt-payload", "rename-annotation", "drop-one-add-two", "recase-annotation-key"}
 var c18RawFaults = []string{"none", "describe-keyid", "describe-keyspec-garbage", "describe-keyspec-mismatch", "sign-keyid", "chain-other-key", "chain-empty", "chain-garbage", "sig-corrupt", "sig-other-payload", "sig-empty", "chain-reordered"}
 
 // op: I = [task, blob(0/1), key idx, format, envelope capability(0/1), fault idx, nannots]
@@ -158,6 +160,33 @@ func (l c18) Exec(env *core.Env) *core.Result {
 		case "diff-mediatype":
 			m := clone()
 			m["mediaType"] = "application/vnd.evil"
+			custom = mk(map[string]any{"targetArtifact": m})
+		case "rename-annotation", "drop-one-add-two", "recase-annotation-key":
+			// an original annotation disappears while the count does not shrink
+			m := clone()
+			a, _ := m["annotations"].(map[string]any)
+			if a == nil {
+				a = map[string]any{}
+			}
+			keys := make([]string, 0, len(a))
+			for k := range a {
+				keys = append(keys, k)
+			}
+			sort.Strings(keys)
+			if len(keys) > 0 {
+				k := keys[0]
+				v := a[k]
+				delete(a, k)
+				switch fault {
+				case "rename-annotation":
+					a[k+".renamed"] = v
+				case "drop-one-add-two":
+					a["added.one"], a["added.two"] = "1", "2"
+				case "recase-annotation-key":
+					a[strings.ToUpper(k)] = v
+				}
+				m["annotations"] = a
+			}
 			custom = mk(map[string]any{"targetArtifact": m})
 		case "drop-annotation", "alter-annotation", "add-annotation":
 			m := clone()
